@@ -5,7 +5,7 @@ import json, os, subprocess
 
 TECH = 'bounded symbolic execution of the real C units with CBMC 6.11 (SAT/SMT decided, unwinding assertions), witness twins, native replay of counterexamples'
 TRUST = ('trusted: CBMC 6.11 front end/symex + MiniSat/z3, the reference oracle written in the harness, the listed environment stubs, '
-         'the unionfix rewrite of the symbolically executed snapshot (differentially tested each build); bounds are stated per family in the evidence file')
+         'gcc 12 as oracle of the parser-level families (layout, images, expression types, symbol tables, macro expansion), the unionfix rewrite of the symbolically executed snapshot (differentially tested each build); bounds are stated per family in the evidence file')
 
 CHECKS = {
     'C02': ('translation_validation', 'DESIGN.md C02',
@@ -20,38 +20,47 @@ CHECKS = {
             'with the backend rule, has the size, alignment, per-eightbyte register class and member offsets of the C type.'),
     'C09': ('model_checking', 'DESIGN.md C09',
             'declcommon/getlinkage as a step function over a fully symbolic tuple (kind, storage class, scope, visible prior declaration state, assembler labels) '
-            'against a transcription of C11 6.2.2p3-7 and the redeclaration constraints.'),
+            'against a transcription of C11 6.2.2p3-7 and the redeclaration constraints; parser level: ~200 declaration histories of one function/object (storage class and inline combinations, '
+            'block scope, thread-local, tentative) - the definitions handed to the emitter and their export flags equal the symbol table the platform compiler produces (nm).'),
     'C10': ('model_checking', 'DESIGN.md C10',
-            'A catalogue of ~100 violating templates (token skeleton concrete) run through the real decl/stmt/expr code under CBMC: the diagnostic reached is the one for the '
-            'violated constraint and is reachable; value-quantified constraint checks live in the C04/C05/C06/C14/C15 families.'),
+            'A catalogue of ~115 violating templates (token skeleton concrete) run through the real decl/stmt/expr code under CBMC: the diagnostic reached is the one for the '
+            'violation is diagnosed (status 1 path through error()/fatal()) and that path is reachable; value-quantified constraint checks live in the C04/C05/C06/C14/C15 families.'),
     'C11': ('model_checking', 'DESIGN.md C11',
             'Token and scanner locations count physical lines/columns through splices and comments for all byte continuations (scan step + nextchar), error() prints the '
             'location it is given (symbolic line/col) and exits 1, catalogue violations on a line of their own are reported on that line.'),
     'C19': ('model_checking', 'DESIGN.md C19',
             'The functional harnesses re-run with CBMC bounds/pointer/overflow/division/shift checks, source assert()s and unwinding assertions (termination) and with real buffer '
-            'growth: scanner on all first bytes, utf, tree, hash table, layout, data emission, character constants, designator stack.'),
+            'growth: scanner on all first bytes, utf, tree, hash table, layout, data emission, character constants, designator stack, macro expansion with real deallocation, '
+            'and unusual parser inputs that must end in output or a diagnostic (every assert() in cproc is an obligation).'),
     'C20': ('model_checking', 'DESIGN.md C20',
             'Twin runs of the constructors on symbolic arguments with symbolic heap garbage agree on every consumer-visible field; slices of the functional families re-run '
             '(their proofs quantify over all allocator contents and layouts).'),
     'C01': ('model_checking', 'DESIGN.md C01',
             'Instruction selection per operator: for each (operator, left type, right type) and each conversion the real mkbinaryexpr+funcexpr/convert lower '
             'operands of fully symbolic value; the emitted IL, executed by an IL semantics, equals the C value for every defined input (solver-decided), '
-            'and obeys the IL class rules.'),
+            'and obeys the IL class rules. In-memory translation validation: ~45 whole functions (control flow, calls with converted/variadic arguments, automatic initializers, bit-fields, struct copy) '
+            'go through the real parser and lowering; their IL, executed on symbolic inputs, agrees with the same source compiled by the checker\'s C front end.'),
     'C04': ('model_checking', 'DESIGN.md C04',
             'For each (operator, type pair) and conversion the real eval() folds a tree with symbolic constant operands to exactly the carrier of the C value '
             '(which the C01 family shows equal to the run-time value); division by zero in a constant expression is diagnosed, never trapped.'),
     'C05': ('model_checking', 'DESIGN.md C05',
             'Type of every binary operator over all pairs of the 14 arithmetic types (right type symbolic) and bit-field operands of symbolic width/position, '
-            'against a table generated from C11 6.3.1.1/6.3.1.8; constraint violations (non-integer operands of % << >> & ^ |) diagnosed.'),
+            'against a table generated from C11 6.3.1.1/6.3.1.8; constraint violations (non-integer operands of % << >> & ^ |) diagnosed; types of integer literals by base/suffix/symbolic magnitude; '
+            'parser level: for ~225 expressions (conditional, pointer arithmetic, decay, sizeof, casts, assignments, promotions, conversions, literals, members with inherited qualifiers, _Generic, compound literals) '
+            'typeof(E) is compatible with exactly the candidate types the platform compiler accepts.'),
     'C06': ('model_checking', 'DESIGN.md C06',
             'addmember over symbolic member sequences (type, bit-field-ness, width, named-ness, _Alignas) for struct/union/packed against an independent '
-            'System V x86-64 layout model: every offset, bit position, size and alignment.'),
+            'System V x86-64 layout model: every offset, bit position, size and alignment; parser level: ~40 struct/union definitions (zero-width/unnamed bit-fields, flexible arrays, alignas, unions) '
+            'with sizeof/_Alignof/offsetof equal to the platform compiler\'s.'),
     'C07': ('model_checking', 'DESIGN.md C07',
             'emitdata: the printed items, decoded back to bytes, equal the image denoted by a sorted initializer list with symbolic offsets, bit positions, widths '
-            'and values (size and alignment included); initadd: one step from an arbitrary valid list keeps exactly the initializers not covered by the new one.'),
+            'and values (size and alignment included); initadd: one step from an arbitrary valid list keeps exactly the initializers not covered by the new one; parser level: ~40 declarations with '
+            'positional/designated/overriding/brace-elided/string/union initializers through the real parseinit and emitdata with every integer constant symbolic, image equal to the platform compiler\'s '
+            '(bit scatter map); invalid initializers diagnosed.'),
     'C12': ('model_checking', 'DESIGN.md C12',
-            'Kernels only: stringize on token sequences with symbolic kinds/spellings/space flags against C11 6.10.3.2p2, macroequal on two symbolic macro definitions against 6.10.3p2. '
-            'Argument collection, pre-expansion, rescanning and hide/paint behaviour are NOT claimed (no verdict within reach of bounded symbolic execution, measured).'),
+            'Symbolic kernels: stringize on token sequences with symbolic kinds/spellings/space flags against C11 6.10.3.2p2, macroequal on two symbolic macro definitions against 6.10.3p2. '
+            'Expansion: the real define/undef/directive/expand/expandfunc/ctxnext/peekparen/keyword executed under CBMC on ~40 concrete macro sets and ~18 violating ones (raw tokens from a '
+            'python tokeniser replace scan.c); the delivered token sequence equals that of the platform preprocessor (gcc -E). Structure concrete in this half: not a quantification over macro sets.'),
     'C13': ('model_checking', 'DESIGN.md C13',
             'Every token start (257 concrete first bytes, second byte concrete too where it re-dispatches) x all continuations up to N bytes: the real scanner '
             'step agrees with an independent C11 6.4 reference lexer on kind, spelling, consumed length, residual stream and location; nextchar is the phase-2 '
